@@ -1427,3 +1427,11 @@ func constObjString(o types.Object) string {
 func isInitFn(f *ssa.Function) bool {
 	return f != nil && f.Parent() == nil && (f.Name() == "init" || strings.HasPrefix(f.Name(), "init#"))
 }
+
+// eqs renders an equality the way Expr does (operands in lexical order).
+func eqs(a, b string) string {
+	if b < a {
+		a, b = b, a
+	}
+	return "(" + a + " == " + b + ")"
+}
